@@ -12,7 +12,7 @@ REAL = ["train_* routines", "buffers", "JAX/Flax/Optax", "multi-task schedulers 
 STUB = ["environment (SimEnv)", "action-space sampler", "train_st callback (StubTrainST) in scheduler plans"]
 ASSUMPTIONS = ["DQN family: the update gate checked is `step > batch_size` (the gate named in the property's anchors)",
                "an extra env.reset() after the last episode is not a violation"]
-TIERS = {"quick": {"runs": 210}, "thorough": {"runs": 3000}}
+TIERS = {"quick": {"runs": 300}, "thorough": {"runs": 3600}}
 REQUIRED = ["large_global_step", "restart_counter_with_reused_state", "non_identity_task_ids", "budget_exit", "episode_limit_exit", "resume", "warmup_iterations_observed", "returned_counter_exact", "scheduler_totals_exact", "ucb_argmax_checked", "initial_rounds", "protocol_misuse_rejected", "rollouts_checked", "several_tasks_trained"]
 REQUIRED_QUICK = ["budget_exit", "episode_limit_exit", "resume"]
 CHUNK = 24  # TrainSim plans per fresh worker process
